@@ -50,6 +50,34 @@ func init() {
 	more["runtime.AddCleanup"] = func(it *Interp, a []Value) Value {
 		return AggV{[]Value{it.S.Const(64, 0), it.S.Const(it.wordBits, 0)}}
 	}
+	// content types are not the subject of any obligation: a fixed table for
+	// the built-in extensions, "" otherwise (so that the caller's own sniffing
+	// path — read the first 512 bytes, seek back — still runs), and a constant
+	// for the sniffer.
+	more["mime.TypeByExtension"] = func(it *Interp, a []Value) Value {
+		ext, ok := it.concStr(a[0].(StrV))
+		if !ok {
+			return StrV{}
+		}
+		switch ext {
+		case ".html", ".htm":
+			return it.mkStr("text/html; charset=utf-8")
+		case ".css":
+			return it.mkStr("text/css; charset=utf-8")
+		case ".js":
+			return it.mkStr("text/javascript; charset=utf-8")
+		case ".json":
+			return it.mkStr("application/json")
+		case ".png":
+			return it.mkStr("image/png")
+		case ".txt":
+			return it.mkStr("text/plain; charset=utf-8")
+		}
+		return StrV{}
+	}
+	more["net/http.DetectContentType"] = func(it *Interp, a []Value) Value {
+		return it.mkStr("application/octet-stream")
+	}
 	for _, n := range []string{
 		"sync.runtime_registerPoolCleanup", "sync.runtime_notifyListCheck", "sync.throw", "sync.fatal",
 		"internal/sync.runtime_registerPoolCleanup", "os.runtime_args", "syscall.runtime_envs",
